@@ -87,8 +87,28 @@ def gen_ontology_spec(rng):
     return items
 
 
-def build(items):
-    o = G.new_ontology()
+def rename_items(items, prefix):
+    """The same definitions under other names (object types, concepts, sources, event types), references included."""
+    text = json.dumps(items)
+    names = set()
+    for kind, spec in items:
+        if kind in ('objecttype', 'concept', 'eventtype'):
+            names.add(spec['name'])
+    out = json.loads(text)
+
+    def walk(x):
+        if isinstance(x, dict):
+            return {k: walk(v) for k, v in x.items()}
+        if isinstance(x, list):
+            return [walk(v) for v in x]
+        if isinstance(x, str) and x in names:
+            return prefix + x
+        return x
+    return walk(out)
+
+
+def build(items, o=None):
+    o = G.new_ontology() if o is None else o
     for kind, s in items:
         if kind == 'objecttype':
             G.build_objecttype(o, s)
@@ -235,13 +255,73 @@ class C08(Property):
     def rule(self):
         return ('cases: (ontology definitions of all element kinds with random optional attributes, one XML-level edit of the '
                 'serialized ontology); observed per element: attributes after create_from_xml + generate_xml, after a second '
-                'cycle, schema validity of the output, equality of the definitions; non-trivial = an edit that applies; '
-                'distinct by content')
+                'cycle, schema validity of the output, equality of the definitions; plus histories of one Ontology object '
+                '(filled, serialized / written / used as update source, cleared or not, filled again): its serialization, what a '
+                'parser reads back from a validating writer and what an updated ontology receives, compared with a freshly built '
+                'ontology; non-trivial = an edit that applies, or a history; distinct by content')
 
     def generate(self, rng, tier):
         n = 120 if tier == 'quick' else 2500
         for i in range(n):
             yield {'kind': 'cycle', 'items': gen_ontology_spec(rng), 'edit': XML_EDITS[i % len(XML_EDITS)], 'seed': rng.randint(0, 10 ** 6)}
+            if i % 4 == 0:
+                # one Ontology object used over a history: filled, serialized / written / used as update source, cleared or not,
+                # filled again with definitions under other names (as many or fewer, so that counters can reach old values)
+                first = gen_ontology_spec(rng)
+                second = rename_items(gen_ontology_spec(rng) if rng.random() < 0.5 else copy.deepcopy(first)[:rng.randint(1, len(first))], 'q')
+                yield {'kind': 'reuse', 'first': first, 'second': second, 'clear': rng.random() < 0.6,
+                       'uses': rng.sample(['xml', 'writer', 'update'], rng.randint(1, 2))}
+
+    def observe_reuse(self, case):
+        """One Ontology object over a history: filled, serialized, (cleared,) filled again, written by a validating writer.
+        What it serializes to, and what a parser reads back, must be what a freshly built ontology of the final content gives."""
+        from lxml import etree
+        from edxml.ontology import Ontology
+        from edxml.writer import EDXMLWriter
+        from edxml.parser import EDXMLPullParser
+        first, second, clear = case['first'], case['second'], case['clear']
+        try:
+            fresh = build(second if clear else first + second)
+            fresh.validate()
+            # only ontologies that a validating writer accepts when they are built from scratch are cases
+            for x in (fresh, build(first)):
+                x.validate()
+                w = EDXMLWriter(io.BytesIO())
+                w.add_ontology(x)
+                w.close()
+        except Exception:
+            return {'skipped': True}
+        try:
+            o = build(first)
+            for how in case['uses']:
+                if how == 'xml':
+                    o.generate_xml()
+                elif how == 'writer':
+                    w = EDXMLWriter(io.BytesIO())
+                    w.add_ontology(o)
+                    w.close()
+                elif how == 'update':
+                    Ontology().update(o)
+            if clear:
+                o.clear()
+                G.new_ontology(o)
+            build(second, o)
+            direct = etree.tostring(o.generate_xml())
+            out = io.BytesIO()
+            w = EDXMLWriter(out)
+            w.add_ontology(o)
+            w.close()
+            p = EDXMLPullParser()
+            p.parse(io.BytesIO(out.getvalue()))
+            back = etree.tostring(p.get_ontology().generate_xml())
+            want = etree.tostring(fresh.generate_xml())
+            target = Ontology()
+            target.update(o)
+            updated = etree.tostring(target.generate_xml())
+        except Exception as ex:
+            return {'skipped': False, 'outcome': 'raised:' + type(ex).__name__}
+        return {'skipped': False, 'outcome': 'ok', 'serializes_as_fresh': direct == want, 'parses_back_as_fresh': back == want,
+                'updates_as_fresh': updated == want}
 
     def prepared_input(self, case):
         """The ontology element handed to the parser: SDK serialization + the edit. None when it is not schema-valid."""
@@ -263,6 +343,8 @@ class C08(Property):
         from lxml import etree
         from edxml.ontology import Ontology
         from edxml.error import EDXMLValidationError
+        if case['kind'] == 'reuse':
+            return self.observe_reuse(case)
         root, applied = self.prepared_input(case)
         if root is None:
             return {'skipped': True}
@@ -312,12 +394,17 @@ class C08(Property):
         return True
 
     def requests(self, case):
+        if case['kind'] == 'reuse':
+            return []
         root, applied = self.prepared_input(case)
         if root is None:
             return []
         return [{'op': 'xmlcycle', 'elements': [{'tag': t, 'attrs': a} for _k, t, a in elements_of(root)]}]
 
     def predict(self, case, replies):
+        if case['kind'] == 'reuse':
+            # in the model a serialization is a function of the definitions the ontology holds now (encode of the records)
+            return {'skipped': False, 'outcome': 'ok', 'serializes_as_fresh': True, 'parses_back_as_fresh': True, 'updates_as_fresh': True}
         root, applied = self.prepared_input(case)
         if root is None:
             return {'skipped': True}
@@ -335,8 +422,28 @@ class C08(Property):
         return {'skipped': False, 'parsed': 'ok', 'elements': els, 'second_identical': True, 'schema_valid': True,
                 'same_definitions': True}
 
+    def fill_undecided(self, case, obs, pred):
+        # whether generated definitions are a case at all (valid, accepted by a writer when built from scratch) is decided
+        # by building them
+        if case['kind'] == 'reuse' and obs.get('skipped'):
+            return obs
+        return pred
+
     def oracle(self, case, obs):
         if obs.get('skipped'):
+            return None
+        if case['kind'] == 'reuse':
+            what = 'an Ontology object that was %s, %sand filled again' % (
+                ' and '.join({'xml': 'serialized', 'writer': 'written', 'update': 'used to update another ontology'}[u] for u in case['uses']) or 'filled',
+                'cleared ' if case['clear'] else '')
+            if obs['outcome'] != 'ok':
+                return '%s: %s' % (what, obs['outcome'])
+            if not obs['serializes_as_fresh']:
+                return '%s does not serialize to what a freshly built ontology with the same definitions serializes to' % what
+            if not obs['parses_back_as_fresh']:
+                return '%s is accepted by a validating writer, but what a parser reads back differs from its definitions' % what
+            if not obs['updates_as_fresh']:
+                return '%s: an ontology updated with it does not receive its current definitions' % what
             return None
         what = 'ontology with XML edit %s' % case['edit']
         if obs['parsed'] != 'ok':
@@ -350,12 +457,18 @@ class C08(Property):
         return None
 
     def neighbours(self, case, rng):
+        if case['kind'] == 'reuse':
+            return []
         return [dict(case, edit=e, seed=rng.randint(0, 10 ** 6)) for e in XML_EDITS]
 
     def nontrivial(self, case):
+        if case['kind'] == 'reuse':
+            return json.dumps(case, sort_keys=True)
         return json.dumps(case, sort_keys=True) if case['edit'] != 'none' else None
 
     def sample_view(self, case):
+        if case['kind'] == 'reuse':
+            return {'kind': 'reuse', 'uses': case['uses'], 'clear': case['clear']}
         return {'edit': case['edit'], 'kinds': [k for k, _ in case['items']]}
 
 
